@@ -386,7 +386,7 @@ static void ref_validate(const Plan &plan, const EncSetup &es, const Bytes &out,
 		int nf = 0; while (es.chain.f[nf].id != LZMA_VLI_UNKNOWN) ++nf;
 		bool ok = true;
 		for (int i = nf - 2; i >= 0 && ok; --i) {
-			if (es.chain.f[i].id == LZMA_FILTER_DELTA) ref::delta_apply(plain, es.chain.delta.dist, false);
+			if (es.chain.f[i].id == LZMA_FILTER_DELTA) ref::delta_apply(plain, ((const lzma_options_delta *)es.chain.f[i].options)->dist, false);
 			else if (ref::bcj_supported(es.chain.f[i].id)) ref::bcj_apply(es.chain.f[i].id, plain, es.chain.f[i].options ? es.chain.bcj.start_offset : 0, false);
 			else ok = false;
 		}
